@@ -34,6 +34,16 @@ def run_py(hist) -> Tuple[List[Any], Any]:
         if ev[0] == "w":
             lcd.write(ev[1], ev[2])
             outs.append(None)
+        elif ev[0] == "s":
+            # what PCE500Emulator._capture_lcd_snapshot/_restore_lcd_snapshot do, into a fresh controller
+            sn = lcd.get_snapshot()
+            meta = {"chip_count": len(sn.chips), "pages": len(sn.chips[0].vram), "width": len(sn.chips[0].vram[0]),
+                    "chips": [{"on": c.on, "start_line": c.start_line, "page": c.page, "y_address": c.y_address,
+                               "instruction_count": c.instruction_count, "data_write_count": c.data_write_count} for c in sn.chips]}
+            payload = bytes(int(v) & 0xFF for c in sn.chips for pg in c.vram for v in pg)
+            lcd = HD61202Controller()
+            lcd.load_snapshot(meta, payload)
+            outs.append(None)
         else:
             outs.append(lcd.read(ev[1]))
     snap = lcd.get_snapshot()
@@ -44,7 +54,7 @@ def run_py(hist) -> Tuple[List[Any], Any]:
 def rs_req(hist):
     ops = []
     for ev in hist:
-        ops.append({"w": [ev[1], ev[2]]} if ev[0] == "w" else {"r": ev[1]})
+        ops.append({"w": [ev[1], ev[2]]} if ev[0] == "w" else {"snap": 1} if ev[0] == "s" else {"r": ev[1]})
     ops.append({"obs": False})
     return {"cmd": "lcd", "script": ops}
 
@@ -52,7 +62,7 @@ def rs_req(hist):
 def rs_unpack(resp, hist):
     outs = []
     for ev, o in zip(hist, resp["out"]):
-        outs.append(None if ev[0] == "w" else o["v"])
+        outs.append(None if ev[0] in ("w", "s") else o["v"])
     obs = resp["out"][-1]
     vram = bytes.fromhex(obs["vram"])
     st = []
@@ -69,13 +79,15 @@ def run_ref(hist):
         if ev[0] == "w":
             r.write(ev[1], ev[2])
             outs.append(None)
+        elif ev[0] == "s":
+            outs.append(None)          # save -> fresh controller -> load is the identity
         else:
             outs.append(r.read(ev[1]))
     return outs, r.state()
 
 
 def describe(ev) -> str:
-    return f"W[{ev[1]:#06x}]={ev[2]:#04x}" if ev[0] == "w" else f"R[{ev[1]:#06x}]"
+    return f"W[{ev[1]:#06x}]={ev[2]:#04x}" if ev[0] == "w" else "SNAPSHOT" if ev[0] == "s" else f"R[{ev[1]:#06x}]"
 
 
 def judge(hist, py, rs, vb: VB) -> Tuple:
@@ -90,7 +102,9 @@ def judge(hist, py, rs, vb: VB) -> Tuple:
             continue
         for i, (a, b) in enumerate(zip(outs, ref_out)):
             if a != b:
-                vb.add(f"C15/{impl}/read-value/{'data' if (hist[i][1] >> 1) & 1 else 'status'}",
+                isdata = (hist[i][1] >> 1) & 1
+                vb.add(f"C15/{impl}/read-value/{'data' if isdata else 'status'}" + ("" if isdata or a is None or b is None else f"/bits={(a ^ b) & 0xFF:02x}") +
+                       ("/after-snapshot" if any(e[0] == "s" for e in hist[:i]) else ""),
                        f"{impl}: {describe(hist[i])} returned {a} expected {b} in {[describe(e) for e in hist[:i + 1]]}", wit)
                 break
         names = ("on", "start_line", "page", "column", "vram")
@@ -135,15 +149,31 @@ def _bfs(args):
             for hist, resp in zip(part, outs):
                 k = judge(hist, run_py(hist), rs_unpack(resp, hist), vb)
                 trans += 1
-                if k not in seen:
-                    seen.add(k)
+                snapped = any(e[0] == "s" for e in hist)
+                if (k, snapped) not in seen:           # a history with a snapshot in it is explored further on its own
+                    seen.add((k, snapped))
                     last = hist
                     if d < depth:
-                        nxt.extend(hist + (e,) for e in events)
+                        nxt.extend(hist + (e,) for e in events if not (snapped and e[0] == "s"))
         maxd = d
         cur = nxt
         d += 1
     return {"states": len(seen), "transitions": trans, "depth": maxd, "vb": vb, "sample": [list(e) for e in last]}
+
+
+def _snap_scripts(args):
+    """Column-wrap scripts with a snapshot (save -> fresh controller -> load) inserted after each single position."""
+    runs = args
+    h = rb.harness()
+    vb = VB()
+    n = 0
+    for r in runs:
+        variants = [r[:i] + (("s", 0, 0),) + r[i:] for i in range(1, len(r), 1)]
+        outs = h.batch([rs_req(v) for v in variants])
+        for v, resp in zip(variants, outs):
+            judge(v, run_py(v), rs_unpack(resp, v), vb)
+            n += 1
+    return {"n": n, "vb": vb}
 
 
 def _wrap_runs():
